@@ -10,7 +10,7 @@
 (* every line is examined; because each line carries its own pre-state a   *)
 (* mismatch does not mask later ones).                                     *)
 (***************************************************************************)
-EXTENDS Database, Oplog
+EXTENDS Database, Oplog, QueryRef
 
 Trace == ndJsonDeserialize("trace.ndjson")
 N == Len(Trace)
@@ -83,13 +83,39 @@ DescriptionsOK(pre, evs) ==
 (* C08: event ids strictly increase over the whole change log *)
 TsIncreasing(ts) == \A i \in 1..(Len(ts) - 1) : ts[i][1] < ts[i + 1][1] \/ (ts[i][1] = ts[i + 1][1] /\ ts[i][2] < ts[i + 1][2])
 
+(* The query and sort-key domains of DESIGN.md 8.2 / 8.3, applied to a driver call: outside them the properties  *)
+(* leave the matching / ordering open, so which documents a call selects is not judged (everything that does   *)
+(* not depend on the selection -- invariants, replay of the events, failed-write atomicity -- still is).       *)
+FiltersOf(e) ==
+  IF e.a = <<>> THEN <<>>
+  ELSE IF e.op = "bulkWrite" THEN
+       LET ms == SelectSeq(e.a.models, LAMBDA m : m.kind # "insert") IN [i \in 1..Len(ms) |-> ms[i].q]
+  ELSE IF "q" \in DOMAIN e.a THEN <<e.a.q>> ELSE <<>>
+SortsOf(e) ==
+  IF e.a = <<>> THEN <<>>
+  ELSE IF e.op = "bulkWrite" THEN
+       LET ms == SelectSeq(e.a.models, LAMBDA m : m.kind # "insert") IN [i \in 1..Len(ms) |-> ms[i].sort]
+  ELSE IF "sort" \in DOMAIN e.a THEN <<e.a.sort>> ELSE <<>>
+SortKeyCrossesArray(docs, cols) ==
+  \E i \in 1..Len(docs) : \E j \in 1..Len(cols) :
+     Traverses(docs[i], cols[j].p) \/ Get(docs[i], cols[j].p) = EmptyArr
+CallInDomain(e, pre, post) ==
+  LET docs == (IF e.ns \in DOMAIN pre THEN pre[e.ns].docs ELSE <<>>) \o (IF e.ns \in DOMAIN post THEN post[e.ns].docs ELSE <<>>)
+      fs == FiltersOf(e)
+      ss == SortsOf(e)
+  IN /\ \A i \in 1..Len(fs) : \A j \in 1..Len(docs) : MatchImpl(docs[j], fs[i]) = "E" \/ InCore(docs[j], fs[i])
+     /\ \A i \in 1..Len(ss) :
+           ss[i] = EmptyDoc \/ LET cs == Columns(ss[i]) IN cs.err \/ ~SortKeyCrossesArray(docs, cs.cols)
+
 CheckCall(e, line) ==
   LET pre == ObsDb(e.pre)
       post == ObsDb(e.post)
       x == Exec(pre, e.op, e.ns, e.a)
-  IN /\ (ResOK(e.op, x.res, e.res, e.a) \/ Bad(line, "result:" \o e.op, x.res, e.res))
-     /\ (x.db = post \/ Bad(line, "state:" \o e.op, x.db, post))
-     /\ (EvsOK(x.ev, e.ev) \/ Bad(line, "events:" \o e.op, x.ev, e.ev))
+      indom == CallInDomain(e, pre, post)
+  IN /\ PrintT(<<IF indom THEN "INDOM" ELSE "OUTDOM", line>>)
+     /\ (~indom \/ ResOK(e.op, x.res, e.res, e.a) \/ Bad(line, "result:" \o e.op, x.res, e.res))
+     /\ (~indom \/ x.db = post \/ Bad(line, "state:" \o e.op, x.db, post))
+     /\ (~indom \/ EvsOK(x.ev, e.ev) \/ Bad(line, "events:" \o e.op, x.ev, e.ev))
      \* C02, stated directly on the observation: a failed single write changes nothing and logs nothing
      /\ ((e.res.err /\ e.op \notin {"insertMany", "bulkWrite"}) => ((e.pre = e.post /\ e.ev = <<>>) \/ Bad(line, "failed-write-changed-state:" \o e.op, e.pre, e.post)))
      \* C07 on the observed state
@@ -106,6 +132,8 @@ CheckCall(e, line) ==
      /\ (TsIncreasing(e.ts) \/ Bad(line, "event-ids:" \o e.op, e.ts, ""))
      \* C03: a call inside a session transaction is invisible outside it
      /\ (("cpre" \in DOMAIN e) => (SameDump(e.cpre, e.cpost) \/ Bad(line, "visibility:session-call-changed-committed-state:" \o e.op, ObsDb(e.cpre.state), ObsDb(e.cpost.state))))
+     \* C03/C04: a writer that queued behind a session transaction works on what that transaction published
+     /\ (("parked" \in DOMAIN e) => (x.db = post \/ Bad(line, "visibility:writer-queued-behind-a-transaction-did-not-start-from-the-published-state:" \o e.op, x.db, post)))
      /\ ((e.a # <<>> /\ "gen" \in DOMAIN e.a /\ e.a.gen # Missing) => (e.a.gen.t = "oid" \/ Bad(line, "generated-id:" \o e.op, "oid", e.a.gen)))
 
 (* one call of the real Transaction.Clean on a crafted change log *)
